@@ -132,6 +132,25 @@ def extreme_vectors(spec: NetSpec):
     return out
 
 
+def link_subset_vectors(spec: NetSpec, base=0, max_links=6):
+    """Boundary states of whole links: for every non-empty proper subset S of the links (networks with 3..max_links links;
+    with fewer links the single excursions and the global extremes already contain them) the base vector with every
+    density of the links in S at 0 (empty links), and the one with every speed of S at 0 (standing links) - the states in
+    which PART of the terms of a node's sums vanish."""
+    m = len(spec.links)
+    if m < 3 or m > max_links:
+        return []
+    out = []
+    basev = base_vector(spec, base)
+    for mask in range(1, 2 ** m - 1):
+        S = [i for i in range(m) if mask >> i & 1]
+        for name, var in (("empty", "rho"), ("standing", "v")):
+            v = {k: (([0.0] * len(lst)) if (k[1] == var and k[0].startswith("L") and int(k[0][1:]) in S) else list(lst))
+                 for k, lst in basev.items()}
+            out.append((f"base{base}:links{S}-{name}", v))
+    return out
+
+
 def local_products(spec: NetSpec, cone, base=0, negatives=False):
     """Full Cartesian product of the alphabets of the scalars in `cone` (<= 8 of them)."""
     basev = base_vector(spec, base)
